@@ -330,6 +330,8 @@ class TreeFn:
             b, tb = self.expr(right, env)
             if ta == "str" and tb == "onmap":
                 return wrap(f"(in_list {a} (map fst {b}))")
+            if ta == "str" and tb == "strs":
+                return wrap(f"(in_list {a} {b})")
             if ta == "node" and tb == "nodes":
                 return wrap(f"(mem {a} {b})")
             self.fail(e, f"membership {ta} in {tb}")
@@ -1085,6 +1087,7 @@ def translate_all(src_root=None):
     out.append(translate_settle(src_root, known, known_params, known_recursive))
     out.append(translate_drain(src_root, known, known_params, known_recursive))
     out.append(translate_async_loop(src_root, known, known_params, known_recursive))
+    out.append(translate_lifecycle(src_root, known))
     return "\n".join(out)
 
 
@@ -1770,6 +1773,46 @@ def translate_async_loop(src_root, known, known_params, known_recursive):
                                 body=[ast.Return(value=test2)], decorator_list=[], lineno=fdef.lineno)
         ast.fix_missing_locations(synth)
         fn = TreeFn(synth, dict(func=func, coqname=name, params=params, ret="bool", needs=[]), src, known)
+        out.append(fn.translate())
+    return "\n".join(out)
+
+
+# ---------------------------------------------------------------------------------------------------------------------
+# lifecycle tests: in which status send() drops the event, in which status stop() returns at once (both engines)
+def translate_lifecycle(src_root, known):
+    out = []
+    for fname, cls, func, coqname in (("sync_interpreter.py", "SyncInterpreter", "send", "send_drops_sync"),
+                                      ("interpreter.py", "Interpreter", "send", "send_drops_async"),
+                                      ("sync_interpreter.py", "SyncInterpreter", "stop", "stop_returns_sync"),
+                                      ("interpreter.py", "Interpreter", "stop", "stop_returns_async")):
+        text = open(os.path.join(src_root, fname), encoding="utf-8").read()
+        module = ast.parse(text)
+        cands = []
+        for n in module.body:
+            if isinstance(n, ast.ClassDef) and n.name == cls:
+                cands = [f for f in n.body if isinstance(f, (ast.FunctionDef, ast.AsyncFunctionDef)) and f.name == func
+                         and not any(ast.unparse(d) == "overload" for d in f.decorator_list)]
+        if len(cands) != 1:
+            raise Untranslatable(f"{fname}: {func}: expected exactly one implementation")
+        fdef = cands[0]
+        src = f"{fname}:{func}"
+        body = [st for st in fdef.body if not _is_logger(st) and not (isinstance(st, ast.Expr) and isinstance(st.value, ast.Constant))]
+        first = body[0] if body else None
+        if not (isinstance(first, ast.If) and not first.orelse and [ast.unparse(x) for x in first.body if not _is_logger(x)] == ["return"]
+                and "self.status" in ast.unparse(first.test)):
+            raise Untranslatable(f"{src}: expected the method to start with `if <test on self.status>: return`")
+        for st in body[1:]:
+            for n in ast.walk(st):
+                if func == "send" and isinstance(n, ast.Return):
+                    raise Untranslatable(f"{src}: a second way out of send()")
+        test = ast.parse(ast.unparse(first.test).replace("self.status", "status"), mode="eval").body
+        synth = ast.FunctionDef(name=func, args=ast.arguments(posonlyargs=[], args=[ast.arg(arg="self"), ast.arg(arg="status")],
+                                                               kwonlyargs=[], kw_defaults=[], defaults=[]),
+                                body=[ast.Return(value=test)], decorator_list=[], lineno=fdef.lineno)
+        ast.fix_missing_locations(synth)
+        fn = TreeFn(synth, dict(func=func, coqname=coqname, params=[("status", "str")], ret="bool", needs=[]), src, known)
+        seg = ast.get_source_segment(text, fdef) or ""
+        out.append(f"(* {fname} :: {cls}.{func}  sha256[:16]={hashlib.sha256(seg.encode()).hexdigest()[:16]}: the status test the method starts with *)")
         out.append(fn.translate())
     return "\n".join(out)
 
